@@ -24,7 +24,7 @@ def text_of(render):
                 s += ws(ln["seps"][i - 1])
             s += t
         if ln["esc"]:
-            s += " _"
+            s += (" _" if toks else "_") + ws(ln.get("etail", []))
         out.append(s + "\n")
     return "".join(out)
 
@@ -52,7 +52,8 @@ def tree_text(tree):
 
 
 def style_text(sty):
-    return "%s/%s/w%d/%s/%s/%s%s%s%s%s" % (sty["mode"], sty["cont"], sty["w"], sty["noise"], sty["tabs"], sty["spacing"],
+    return "%s/%s%s/w%d/%s/%s/%s%s%s%s%s" % (sty["mode"], sty["cont"], ("%d" % sty["escv"]) if sty["cont"] == "esc" and "escv" in sty else "",
+                                          sty["w"], sty["noise"], sty["tabs"], sty["spacing"],
                                           "/fbreak" if sty.get("fbreak") else "", "/tsemi" if sty.get("tsemi") else "",
                                           "/allman" if sty.get("allman") else "", "/endpile" if sty.get("endpile") else "")
 
